@@ -90,8 +90,17 @@ def run_case(prop: str, seed: int, explicit_plan: dict | None = None, keep_hist:
             res["violations"] = [{"class": f"{prop}:control_run_failed:{ctl.exc}", "msg": f"fault-free run raised {ctl.exc}: {ctl.msg}"}]
             res["hist_digest"] = "control-failed"
             return res
-        run = execute(plan, root)
-        V = evaluate(prop, plan, run, ctl)
+        if prop == "C03":
+            from . import gen_sched
+
+            runs = gen_sched.execute_c03(plan, root)
+            V, res["summary"] = gen_sched.evaluate_c03(plan, runs, ctl)
+            run = runs[0]
+            for r_ in runs[1:]:
+                run.hist["lifetimes"] += r_.hist["lifetimes"]
+        else:
+            run = execute(plan, root)
+            V = evaluate(prop, plan, run, ctl)
         res["violations"] = V.v
         res["checks"] = V.checks
         res["probes"] = V.probes
